@@ -15,7 +15,7 @@ inductive Item where
   | byteArray (b : Bytes)
   | buffer (b : Bytes)
   | bool (b : Bool)
-  | int (v : Int)
+  | int (c : Bytes)         -- the integer as its canonical (minimal two's complement, little-endian) bytes
   | array (l : List Item)
   | struct (l : List Item)
   | map (l : List (Item × Item))
@@ -26,31 +26,42 @@ inductive Item where
 
 namespace Item
 
-/-- little-endian two's complement (bigint.FromBytes, encoding/bigint/bigint.go:21-74). -/
+/-- drop redundant sign bytes of a negative number, most significant byte first: `ff x …` with x ≥ 0x80. -/
+def stripNeg : Bytes → Bytes
+  | a :: x :: t => if a = 0xff ∧ x.toNat ≥ 0x80 then stripNeg (x :: t) else a :: x :: t
+  | l => l
+
+/-- drop redundant zero bytes of a non-negative number, most significant byte first; zero is the empty string. -/
+def stripPos : Bytes → Bytes
+  | a :: x :: t => if a = 0 ∧ x.toNat < 0x80 then stripPos (x :: t) else a :: x :: t
+  | [a] => if a = 0 then [] else [a]
+  | [] => []
+
+/-- drop the redundant sign bytes of a number given most significant byte first. -/
+def stripSign : Bytes → Bytes
+  | [] => []
+  | top :: rest => if top.toNat ≥ 0x80 then stripNeg (top :: rest) else stripPos (top :: rest)
+
+/-- `bigint.ToBytes (bigint.FromBytes d)` as a function on bytes (encoding/bigint/bigint.go:21-150): the minimal
+little-endian two's complement form of the number `d` denotes; zero is the empty string. -/
+def canonInt (d : Bytes) : Bytes := (stripSign d.reverse).reverse
+
+/-- the number little-endian two's complement bytes denote (for printing; bigint.FromBytes). -/
 def intFromLE (data : Bytes) : Int :=
   match data.getLast? with
   | none => 0
   | some top =>
     if top.toNat ≥ 0x80 then (leVal data : Int) - (256 ^ data.length : Nat) else (leVal data : Int)
 
-/-- minimal little-endian two's complement, zero is the empty string (bigint.ToBytes). `k` bytes are enough when
-−2^(8k−1) ≤ n < 2^(8k−1); fuel = 33 covers 256-bit integers. -/
+/-- little-endian two's complement of `n` in 33 bytes, canonicalised (for parsing the text form; bigint.ToBytes). -/
 def intToLE (n : Int) : Bytes :=
-  if n = 0 then [] else
-  let rec go (k fuel : Nat) : Bytes :=
-    match fuel with
-    | 0 => []
-    | fuel+1 =>
-      let half : Int := ((2 ^ (8 * k - 1) : Nat) : Int)
-      if -half ≤ n ∧ n < half then leBytes k (n % ((256 ^ k : Nat) : Int)).toNat
-      else go (k + 1) fuel
-  go 1 40
+  canonInt (leBytes 33 (n % ((256 ^ 33 : Nat) : Int)).toNat)
 
 /-- the identity of a map key: type and canonical bytes (stackitem.hashCode). Only valid keys have one
 (IsValidMapKey: Boolean, Integer, ByteString of at most MaxKeySize bytes). -/
 def keyCode : Item → Option (Nat × Bytes)
   | .bool b => some (WireLimits.itemBooleanT, [if b then 1 else 0])
-  | .int v => some (WireLimits.itemIntegerT, intToLE v)
+  | .int c => some (WireLimits.itemIntegerT, c)
   | .byteArray b => if b.length > WireLimits.stackMaxKeySize then none else some (WireLimits.itemByteArrayT, b)
   | _ => none
 
@@ -109,7 +120,7 @@ def decItem (prot : Bool) : Nat → Nat → Bytes → DecRes Item
       else if t.toNat = WireLimits.itemIntegerT then
         match readVarBytes WireLimits.bigintMaxBytesLen r with
         | none => none
-        | some (d, r') => some (.int (intFromLE d), r', lim)
+        | some (d, r') => some (.int (canonInt d), r', lim)
       else if t.toNat = WireLimits.itemArrayT ∨ t.toNat = WireLimits.itemStructT then
         match readVarUint r with
         | none => none
@@ -147,7 +158,7 @@ def enc : Item → Bytes
   | .byteArray b => UInt8.ofNat WireLimits.itemByteArrayT :: (putVarUint b.length ++ b)
   | .buffer b => UInt8.ofNat WireLimits.itemBufferT :: (putVarUint b.length ++ b)
   | .bool b => [UInt8.ofNat WireLimits.itemBooleanT, if b then 1 else 0]
-  | .int v => UInt8.ofNat WireLimits.itemIntegerT :: (UInt8.ofNat (intToLE v).length :: intToLE v)
+  | .int c => UInt8.ofNat WireLimits.itemIntegerT :: (UInt8.ofNat c.length :: c)
   | .array l => UInt8.ofNat WireLimits.itemArrayT :: (putVarUint l.length ++ encList l)
   | .struct l => UInt8.ofNat WireLimits.itemStructT :: (putVarUint l.length ++ encList l)
   | .map m => UInt8.ofNat WireLimits.itemMapT :: (putVarUint m.length ++ encPairs m)
@@ -209,6 +220,36 @@ def serializeProtected (v : Item) : Bytes :=
   match serialize true v with
   | some b => b
   | none => [UInt8.ofNat WireLimits.itemInvalidT]
+
+/-- valid, pairwise different map keys (w.r.t. the keys already seen). -/
+def keysOkB (seen : List (Nat × Bytes)) : List (Item × Item) → Bool
+  | [] => true
+  | (k, _) :: rest =>
+    match keyCode k with
+    | none => false
+    | some c => !seen.contains c && keysOkB (c :: seen) rest
+
+mutual
+/-- the items the unprotected decoder can produce (= the items that round-trip). -/
+def wfB : Item → Bool
+  | .byteArray b => decide (b.length ≤ WireLimits.stackMaxSize)
+  | .buffer b => decide (b.length ≤ WireLimits.stackMaxSize)
+  | .bool _ => true
+  | .int c => decide (canonInt c = c) && decide (c.length ≤ WireLimits.bigintMaxBytesLen)
+  | .array l => wfListB l
+  | .struct l => wfListB l
+  | .map m => wfPairsB m && keysOkB [] m
+  | .null => true
+  | .interop => false
+  | .pointer _ => false
+  | .invalid => false
+def wfListB : List Item → Bool
+  | [] => true
+  | x :: xs => wfB x && wfListB xs
+def wfPairsB : List (Item × Item) → Bool
+  | [] => true
+  | (k, v) :: rest => wfB k && wfB v && wfPairsB rest
+end
 
 end Item
 end NeoModel.Wire
